@@ -5,7 +5,7 @@ use crate::alphabet::{AOp, Alphabet};
 use crate::eseq::{self, Finding, SeqParams, SeqResult};
 use crate::model::Config;
 use crate::report::{seed, Report, Violation};
-use crate::sut::{MEM_HTTP, MEM_LIB, SQL_HTTP, SQL_LIB, SQL_LIB_REOPEN};
+use crate::sut::{MEM_HTTP, MEM_LIB, SQL_HTTP, SQL_HTTP_ALLOW_REOPEN, SQL_HTTP_REOPEN, SQL_LIB, SQL_LIB_REOPEN};
 use serde_json::{json, Value};
 
 pub fn threads() -> usize {
@@ -342,6 +342,9 @@ pub fn seq_runs(id: &str, tier: &str) -> Vec<(String, SeqParams)> {
         "C02" => vec![
             base("two clients, all parent classes, library and HTTP on both backends", alpha(2, 3, true, true, true, &[]), four.clone(), if quick { D2Q } else { D2T }, if quick { 1 } else { 2 }),
             base("one client, deep chain", alpha(1, 7, false, true, true, &[]), four.clone(), if quick { D1Q } else { D1T }, 1),
+            // a server restarted between any two requests, with and without an allow-list naming
+            // the client: whatever start-up does, the comparison is with the stored latest version
+            base("two clients, HTTP front end rebuilt before every request (with / without allow-list)", alpha(2, 2, true, false, true, &[]), vec![SQL_LIB, SQL_HTTP_REOPEN, SQL_HTTP_ALLOW_REOPEN], if quick { 4 } else { 5 }, 1),
         ],
         "C07" => {
             let mut v = vec![
@@ -396,6 +399,9 @@ pub fn seq_runs(id: &str, tier: &str) -> Vec<(String, SeqParams)> {
         "C14" => vec![
             base("two clients, HTTP and library twins on both backends, ageing snapshots", alpha(2, 2, true, false, true, &[2, 3]), four.clone(), if quick { D2Q } else { D2T }, if quick { 1 } else { 2 }),
             base("one client, deep chain", alpha(1, 5, false, false, true, &[2, 3]), four.clone(), if quick { D1Q } else { D1T }, 1),
+            // servers with an allow-list naming the clients: the encoding of every outcome is the
+            // same (the library twin knows no list)
+            base("two clients, allow-listed HTTP servers and library twins", alpha(2, 1, true, false, true, &[]), vec![MEM_LIB, SQL_LIB, crate::sut::MEM_HTTP_ALLOW, crate::sut::SQL_HTTP_ALLOW], if quick { 4 } else { 5 }, 1),
         ],
         "C18" => {
             let mut v = vec![
@@ -894,6 +900,19 @@ fn http_check(id: &str, tier: &str, replay: Option<&str>) -> i32 {
         if v["replay"]["engine"] == "eseq" {
             return seq_replay(id, tier, file, &c16_c20_seq_runs(id, tier));
         }
+        if v["replay"]["engine"] == "ebin" {
+            let l = crate::ebin::Launch::from_json(&v["replay"]["launch"]);
+            let (f, _) = crate::ebin::session(&l, seed());
+            for (class, msg) in f {
+                if format!("ebin|{class}") == v["signature"].as_str().unwrap_or("") {
+                    println!("VIOLATION property={id} replay={file}");
+                    println!("  {msg}");
+                    return 1;
+                }
+            }
+            println!("replay of {file}: no violation of {id}");
+            return 0;
+        }
         if v["replay"]["engine"] == "ebin-wire" {
             // the wire session again; the recorded class must show up
             let (f, _) = crate::ebin::wire_session(seed());
@@ -977,6 +996,52 @@ fn http_check(id: &str, tier: &str, replay: Option<&str>) -> i32 {
     }
     rep.cov("grammar_servers", json!(grammar_sizes));
     rep.cov("grammar_status_histogram", json!(statuses));
+    if id == "C16" {
+        // the allow-list as the real executable enforces it, over real connections: listed and
+        // unlisted ids on all four endpoints, and an unlisted client's requests on a keep-alive
+        // connection that has just served a listed one (per request, not per connection)
+        if !crate::ebin::server_binary().exists() {
+            rep.machinery_errors.push(format!("server binary {} not built (the ./check driver builds it)", crate::ebin::server_binary().display()));
+        } else {
+            use crate::ebin::{Launch, Via};
+            let base = Launch { listen: vec!["v4".into()], listen_via: Via::Flag, data_via: Via::Flag, allow: 1, allow_via: Via::Flag, versions: None, versions_via: Via::Flag, days: None, days_via: Via::Flag, log: false };
+            let mut ls = vec![base.clone(), Launch { allow: 2, allow_via: Via::FlagComma, ..base.clone() }, Launch { allow: 2, allow_via: Via::Env, log: true, ..base.clone() }, Launch { allow: 1, allow_via: Via::Env, listen: vec!["v4".into(), "v6".into()], ..base.clone() }];
+            if !quick {
+                ls.extend(crate::ebin::launches(true).into_iter().filter(|l| l.allow > 0));
+            }
+            let tasks: Vec<Value> = ls.iter().map(|l| l.to_json()).collect();
+            let mut pool = crate::pool::Pool::spawn(threads().min(tasks.len()), "bin", &json!({"seed": seed()}));
+            let results = pool.map(&tasks);
+            drop(pool);
+            let mut nreq = 0u64;
+            for (k, r) in results.iter().enumerate() {
+                match r {
+                    Ok(res) => {
+                        if let Some(e) = res["error"].as_str() {
+                            rep.machinery_errors.push(e.to_string());
+                            continue;
+                        }
+                        nreq += res["requests"].as_u64().unwrap_or(0);
+                        for f in res["findings"].as_array().cloned().unwrap_or_default() {
+                            let class = f["class"].as_str().unwrap_or("");
+                            if class == "machinery" {
+                                rep.machinery_errors.push(f["msg"].as_str().unwrap_or("").to_string());
+                            } else if class == "allow-list-not-enforced" || class == "listed-client-refused" {
+                                rep.violations.push(Violation {
+                                    property: "C16".into(),
+                                    signature: format!("ebin|{class}"),
+                                    message: format!("real executable, configuration {}: {}", tasks[k], f["msg"].as_str().unwrap_or("")),
+                                    replay: json!({"engine": "ebin", "launch": tasks[k]}),
+                                });
+                            }
+                        }
+                    }
+                    Err(e) => rep.machinery_errors.push(format!("bin worker: {e}")),
+                }
+            }
+            rep.cov("executable_sessions_with_an_allow_list", json!({"launches": tasks.len(), "requests_over_tcp": nreq, "rule": "the executable built from /repo started with an allow-list (one / two ids, by flag / comma list / environment); listed and unlisted ids on all four endpoints over fresh connections, and four requests of an unlisted client (both reads, both uploads) on a keep-alive connection right after a served request of a listed client: 403 every time"}));
+        }
+    }
     if id == "C15" && crate::ebin::server_binary().exists() {
         // uploads that only exist on a real socket: a body that never completes
         let mut pool = crate::pool::Pool::spawn(1, "bin", &json!({"seed": seed()}));
@@ -1093,7 +1158,11 @@ fn c16_c20_seq_runs(id: &str, tier: &str) -> Vec<(String, SeqParams)> {
     };
     match id {
         "C20" => vec![mk("every HTTP response of the history exploration", vec![MEM_HTTP, SQL_HTTP], vec!["C20"], alpha(2, 2, true, false, true, &[2, 3]), if quick { D2Q } else { D2T })],
-        "C16" => vec![mk("listed clients: allow-listed servers in lock step with list-less twins", vec![MEM_HTTP, crate::sut::MEM_HTTP_ALLOW, SQL_HTTP, crate::sut::SQL_HTTP_ALLOW], vec!["C16"], alpha(2, 2, true, false, true, &[2]), if quick { D2Q } else { D2T })],
+        "C16" => vec![
+            mk("listed clients: allow-listed servers in lock step with list-less twins", vec![MEM_HTTP, crate::sut::MEM_HTTP_ALLOW, SQL_HTTP, crate::sut::SQL_HTTP_ALLOW], vec!["C16"], alpha(2, 2, true, false, true, &[2]), if quick { D2Q } else { D2T }),
+            // ... and when the allow-listed server is restarted between any two requests
+            mk("listed clients: an allow-listed server rebuilt before every request in lock step with a list-less one that keeps running", vec![SQL_HTTP, SQL_HTTP_ALLOW_REOPEN], vec!["C16"], alpha(2, 1, true, false, true, &[]), if quick { 4 } else { 5 }),
+        ],
         _ => vec![],
     }
 }
@@ -1283,7 +1352,10 @@ fn c04_check(tier: &str, replay: Option<&str>) -> i32 {
             let (cap_h, pl_h, torn_h) = if quick { (cap, pair_limit, false) } else if nreq <= 1 { (cap, pair_limit, true) } else if nreq == 2 { (10, 24, false) } else { (8, 16, false) };
             // recovery through the start-up path of the real executable: every process-crash
             // image; thorough: every image of the histories of up to two requests without tearing
-            let via_exec = if !quick && nreq <= 2 && !torn_h { 2 } else { 1 };
+            // (thorough: also every power-loss image of the two-request histories that run while
+            // another connection is held open - the ones whose write-ahead log has content)
+            let held = h.iter().any(|c| *c == crate::ecrash::COp::HoldConnection);
+            let via_exec = if !quick && held && nreq <= 2 && !torn_h { 2 } else { 1 };
             tasks.push(json!({"hist": names, "part": part, "parts": pp, "cap": cap_h, "pair_limit": pl_h, "torn": torn_h, "via_exec": via_exec}));
         }
     }
@@ -1330,7 +1402,7 @@ fn c04_check(tier: &str, replay: Option<&str>) -> i32 {
     rep.cov("histories", json!(hists.len()));
     rep.cov("evaluations", json!(images));
     rep.cov("distinct_nontrivial", json!(distinct));
-    rep.cov("rule", json!(format!("one evaluation = one crash image (process-crash image, or power-loss image = last synced content of every file + a subset of the later unsynced writes/truncates in log order) of one crash point (every state-changing VFS call and every request boundary) of one history, recovered by the real SqliteStorage::new + integrity_check + full protocol read-back + one more AddVersion/AddSnapshot per client; process-crash images (thorough: every image of histories of up to two requests) are in addition recovered the way an operator does it - the real executable built from /repo is started on the image, queried over TCP, killed, and what it leaves must recover to the same state (count: exec_recoveries); all subsets when at most {cap} writes are unsynced, otherwise every prefix, every all-but-one and only-one, and all-but-two / only-two up to {pair_limit} unsynced writes; above 64 unsynced writes (multi-megabyte commits) only the deviations from a prefix, the prefixes themselves being the process-crash images of earlier crash points; distinct = images that differ in bytes or in what had been acknowledged (identical ones are recovered once)")));
+    rep.cov("rule", json!(format!("one evaluation = one crash image (process-crash image, or power-loss image = last synced content of every file + a subset of the later unsynced writes/truncates in log order) of one crash point (every state-changing VFS call and every request boundary) of one history, recovered by the real SqliteStorage::new + integrity_check + full protocol read-back + one more AddVersion/AddSnapshot per client; process-crash images (thorough: every image of the two-request histories that run while another connection is held open) are in addition recovered the way an operator does it - the real executable built from /repo is started on the image, queried over TCP, killed, and what it leaves must recover to the same state (count: exec_recoveries); all subsets when at most {cap} writes are unsynced, otherwise every prefix, every all-but-one and only-one, and all-but-two / only-two up to {pair_limit} unsynced writes; above 64 unsynced writes (multi-megabyte commits) only the deviations from a prefix, the prefixes themselves being the process-crash images of earlier crash points; distinct = images that differ in bytes or in what had been acknowledged (identical ones are recovered once)")));
     rep.cov("samples", json!(samples));
     rep.cov("exhaustive", json!(true));
     rep.cov("subset_cap_log2", json!(cap));
@@ -1659,6 +1731,30 @@ pub fn sched_extra(id: &str, tier: &str) -> Vec<crate::esched::Scenario> {
     }
     let pairs: Vec<(Vec<RKind>, Vec<RKind>)> = match id {
         "C11" => return c11_scenarios(tier),
+        // the acceptance rule under overlap: a snapshot upload whose check and write are not one
+        // step can be overtaken by a newer snapshot or by versions that push it out of the window
+        "C10" => {
+            let pairs: Vec<(Vec<RKind>, Vec<RKind>)> = vec![
+                (vec![RKind::AsLatest], vec![RKind::AsOlder]),
+                (vec![RKind::AsLatest], vec![RKind::AsLatest]),
+                (vec![RKind::AsOlder], vec![RKind::AvLatest, RKind::AvLatest]),
+                (vec![RKind::AsLatest], vec![RKind::AvLatest]),
+            ];
+            let mut out = vec![];
+            for init in ["chain2+snapshot", "chain3+snapshot"] {
+                for (a, b) in &pairs {
+                    for backend in [Backend::Mem, Backend::SqlShared, Backend::SqlPerThread] {
+                        for http in [false, true] {
+                            if quick && http && backend != Backend::SqlShared {
+                                continue;
+                            }
+                            out.push(Scenario { init: init.into(), threads: vec![a.clone(), b.clone()], backend, http, lock_points: false, constructor_thread: false, clients: vec![] });
+                        }
+                    }
+                }
+            }
+            return out;
+        }
         // chain shape: overlapping appends, then the chain is read back
         "C01" => vec![
             (vec![RKind::AvLatest], vec![RKind::AvLatest]),
